@@ -62,12 +62,46 @@ def fit_model(rng, pygam, cls_name, pr):
     if cls_name == 'GAM':
         kw.update(distribution='normal', link='identity')
     fit_intercept = any(t.isintercept for t in pr.terms)
-    gam = cls(pr.terms, max_iter=25, fit_intercept=fit_intercept, **kw)
+    # the model gets terms that have never seen data (the generator compiled pr.terms on pr.X to place query points):
+    # whatever a term knows about the data must come from the fits below
+    from pygam.terms import TermList
+    fresh_terms = TermList.build_from_info(pr.terms.info)
+    gam = cls(fresh_terms, max_iter=25, fit_intercept=fit_intercept, **kw)
     y = make_response(rng, cls_name, pr.X)
     buf = io.StringIO()
+    gam._c02_history = 'fresh'
+    if rng.random() < 0.35:
+        # history: the same object was fitted before on data with other ranges (every column that is not a factor
+        # feature mapped x -> 2.5 x + 3); the fitted domain of every term is that of the LAST fit
+        fac = set()
+        for t in pr.terms:
+            for s_ in (t._terms if t.istensor else [t]):
+                if getattr(s_, '_name', '') == 'factor_term':
+                    fac.add(int(s_.feature))
+        X0 = pr.X.copy()
+        for j in range(X0.shape[1]):
+            if j not in fac:
+                X0[:, j] = 2.5 * X0[:, j] + 3.0
+        try:
+            with contextlib.redirect_stdout(buf):
+                gam.fit(X0, make_response(rng, cls_name, X0))
+            gam._c02_history = 'refit after a fit on other ranges'
+        except Exception:  # noqa  (a failed earlier fit is part of the history too)
+            gam._c02_history = 'refit after a failed fit on other ranges'
     with contextlib.redirect_stdout(buf):
         gam.fit(pr.X, y)
     return gam
+
+
+def fitted_domain(s_, X):
+    """the documented domain of a (marginal) term fitted on X: user edge knots if given, else the range of its feature
+    (widened by half a category for a factor term) — recomputed from the data, not read from the compiled term"""
+    if getattr(s_, 'edge_knots', None) is not None and s_._name == 'spline_term':
+        return [float(v) for v in s_.edge_knots_]
+    col = X[:, int(s_.feature)]
+    if s_._name == 'factor_term':
+        return [float(col.min()) - 0.5, float(col.max()) + 0.5]
+    return [float(col.min()), float(col.max())]
 
 
 def run(ctx):
@@ -154,6 +188,7 @@ def _check_model(ctx, cls_name, pr, gam, toks, grids, outs, st, st_or, st_g, st_
         tl = gam.terms
         sig = dict(cls=cls_name, tokens=toks)
         ctx.count('model class', cls_name)
+        ctx.count('history of the model object', getattr(gam, '_c02_history', 'fresh'))
         nontriv = sum(1 for t in tl if not t.isintercept) > 1 or any(t.istensor or getattr(t, 'by', None) is not None for t in tl if not t.isintercept)
         # ---------------- oracle on the real code
         mu = gam.predict_mu(Xq)
@@ -256,25 +291,35 @@ def _check_model(ctx, cls_name, pr, gam, toks, grids, outs, st, st_or, st_g, st_
             sizes = [3, 4, 2][:len(subs)]
             axes = [np.linspace(float(min(s_.edge_knots_)) - 0.3 * (k_ == 0 and getattr(s_, 'spline_order', 1) >= 1), float(max(s_.edge_knots_)), sz)
                     for k_, (s_, sz) in enumerate(zip(subs, sizes))]
+            # variants: memory layouts of one float64 mesh, and meshes whose FIRST array has another dtype than the others
+            # (an integer-valued axis such as a year next to a continuous one; a float32 axis): values, not dtypes, count
+            lo0 = float(np.floor(min(subs[0].edge_knots_)))
+            ax_int = [np.array([lo0, lo0 + 1, lo0 + 2]).astype(np.int64)] + axes[1:]
+            ax_f32 = [axes[0].astype(np.float32)] + axes[1:]
+            variants = []
             mesh_ij = np.meshgrid(*axes, indexing='ij')
-            layouts = {'C': [np.ascontiguousarray(a) for a in mesh_ij],
-                       'F': [np.asfortranarray(a) for a in mesh_ij],
-                       'T-view': [np.ascontiguousarray(a.T).T for a in mesh_ij]}
-            pts = np.zeros((mesh_ij[0].size, pr.X.shape[1]))
-            for s_, a in zip(subs, mesh_ij):
-                pts[:, s_.feature] = a.ravel()
-            if getattr(t, 'by', None) is not None:
-                pts[:, t.by] = 1.0
-            ref = np.asarray(gam.partial_dependence(ti, X=pts)).reshape(mesh_ij[0].shape)
-            for lname, mesh in layouts.items():
+            variants.append(('C', axes, [np.ascontiguousarray(a) for a in mesh_ij]))
+            variants.append(('F', axes, [np.asfortranarray(a) for a in mesh_ij]))
+            variants.append(('T-view', axes, [np.ascontiguousarray(a.T).T for a in mesh_ij]))
+            if getattr(subs[0], 'spline_order', 1) >= 1 and len(subs) >= 2:
+                variants.append(('int64-first-axis', ax_int, list(np.meshgrid(*ax_int, indexing='ij'))))
+            variants.append(('float32-first-axis', ax_f32, list(np.meshgrid(*ax_f32, indexing='ij'))))
+            for lname, axv, mesh in variants:
+                pts = np.zeros((mesh[0].size, pr.X.shape[1]))
+                for s_, a in zip(subs, mesh):
+                    pts[:, s_.feature] = np.asarray(a, dtype=float).ravel()
+                if getattr(t, 'by', None) is not None:
+                    pts[:, t.by] = 1.0
+                ref = np.asarray(gam.partial_dependence(ti, X=pts)).reshape(mesh[0].shape)
                 msig = dict(cls=cls_name, tokens=toks, term=ti, layout=lname)
                 ctx.case(st_go, msig, nontrivial=True)
+                ctx.count('user mesh variant', lname)
                 got = np.asarray(gam.partial_dependence(ti, X=tuple(mesh), meshgrid=True))
                 if got.shape != ref.shape or np.abs(got - ref).max() > 1e-9 * (1 + np.abs(ref).max()):
-                    ctx.fail(st_go, dict(kind='mesh', layout=lname, tensor=bool(t.istensor)), dict(cls=cls_name, tokens=toks, term=ti, layout=lname, axes=[a.tolist() for a in axes]),
+                    ctx.fail(st_go, dict(kind='mesh', layout=lname, tensor=bool(t.istensor)), dict(cls=cls_name, tokens=toks, term=ti, layout=lname, axes=[np.asarray(a, dtype=float).tolist() for a in axv]),
                              observed=dict(shape=list(got.shape), maxdiff=float(np.abs(got - ref).max()) if got.shape == ref.shape else None),
                              expected='partial_dependence(term, X=mesh, meshgrid=True)[i, j, ..] = partial dependence at the mesh point (i, j, ..)',
-                             oracle='same points passed as a flat matrix')
+                             oracle='same points passed as a flat float64 matrix')
                     break
         # ---------------- grids
         for (ti, n) in grids:
@@ -292,14 +337,14 @@ def _check_model(ctx, cls_name, pr, gam, toks, grids, outs, st, st_or, st_g, st_
                 # documented grid, recomputed independently
                 ref = np.zeros_like(G)
                 if t.istensor:
-                    axes = [np.linspace(s_.edge_knots_[0], s_.edge_knots_[1], n) for s_ in t._terms]
+                    axes = [np.linspace(*fitted_domain(s_, pr.X), n) for s_ in t._terms]
                     mesh = np.meshgrid(*axes, indexing='ij')
                     for s_, mm in zip(t._terms, mesh):
                         ref[:, s_.feature] = mm.ravel()
                     if not (isinstance(Gm, tuple) and len(Gm) == k_ and all(np.array_equal(a, b) for a, b in zip(Gm, mesh))):
                         gbad = 'meshgrid=True output is not the ij mesh of the marginal grids'
                 else:
-                    ref[:, t.feature] = np.linspace(t.edge_knots_[0], t.edge_knots_[1], n)
+                    ref[:, t.feature] = np.linspace(*fitted_domain(t, pr.X), n)
                     if not (isinstance(Gm, tuple) and len(Gm) == 1 and np.array_equal(Gm[0], ref[:, t.feature])):
                         gbad = 'meshgrid=True output is not the 1-d grid'
                 if getattr(t, 'by', None) is not None:
